@@ -184,7 +184,7 @@ class Ctx:
         for old in glob.glob(os.path.join(REPLAY, '%s-%s-*.json' % (self.pid, self.tier))):
             os.remove(old)
         for i, v in enumerate(self.violations):
-            if i >= 25:
+            if i >= int(os.environ.get('VERIF_MAX_REPLAYS', '25')):
                 break
             p = os.path.join(REPLAY, '%s-%s-%d.json' % (self.pid, self.tier, i))
             with open(p, 'w') as fh:
